@@ -503,16 +503,16 @@ Proof.
   split; [exact (ungated_enc_available st im _ G2)|exact (ungated_enc_available st im _ G3)].
 Qed.
 
-Require ZV.gen.Pure.
+Require ZV.gen.Pure ZV.gen.PureSpork.
 (* ---- the activity test of the model IS the code: momentumStore.IsSporkActive (chain/momentum/embedded.go) as
    translated by go2coq on every run (incl. its loop over the defined sporks, as a structural fixpoint). The frontier
    momentum and the list of defined sporks (GetAllDefinedSporks) are inputs of the translation; spork ids enter as
    numbers (the 32 bytes as one big-endian number). *)
 Lemma is_active_is_source h l id :
-  ZV.gen.Pure.IsSporkActive 0 h 0 id (map (fun s => (sp_activated s, sp_enf s, sp_id s)) l) =
+  ZV.gen.PureSpork.IsSporkActive 0 h 0 id (map (fun s => (sp_activated s, sp_enf s, sp_id s)) l) =
   (is_active (mkMstore h l) id, 0).
 Proof.
-  unfold ZV.gen.Pure.IsSporkActive, is_active. cbn [ms_height ms_sporks]. cbv zeta.
+  unfold ZV.gen.PureSpork.IsSporkActive, is_active. cbn [ms_height ms_sporks]. cbv zeta.
   change (0 =? 0) with true. cbn [negb].
   destruct (h =? 1); [reflexivity|].
   induction l as [|s l IH]; [reflexivity|].
@@ -522,9 +522,9 @@ Proof.
 Qed.
 
 Lemma is_active_errors_propagate e1 h e2 id items :
-  e1 <> 0 \/ (h <> 1 /\ e2 <> 0) -> exists e, e <> 0 /\ ZV.gen.Pure.IsSporkActive e1 h e2 id items = (false, e).
+  e1 <> 0 \/ (h <> 1 /\ e2 <> 0) -> exists e, e <> 0 /\ ZV.gen.PureSpork.IsSporkActive e1 h e2 id items = (false, e).
 Proof.
-  intros H. unfold ZV.gen.Pure.IsSporkActive. cbv zeta.
+  intros H. unfold ZV.gen.PureSpork.IsSporkActive. cbv zeta.
   destruct (e1 =? 0) eqn:E1; cbn [negb]; [|exists e1; split; [lia|reflexivity]].
   destruct H as [H|[Hh H]]; [lia|].
   destruct (h =? 1) eqn:Eh; [lia|].
